@@ -41,6 +41,7 @@ def main():
     ap.add_argument('--seed', type=int, default=None)
     ap.add_argument('--budget', type=float, default=None)
     ap.add_argument('--jobs', type=int, default=None)
+    ap.add_argument('--cases', type=int, default=None)
     ap.add_argument('--no-build', action='store_true')
     a = ap.parse_args()
     reg = registry()
@@ -67,7 +68,7 @@ def main():
     chk = reg[a.what]()
     if not a.no_build:
         build(chk.flavours)
-    sys.exit(runner.run_check(chk, a.tier, seed=a.seed, budget_s=a.budget, jobs=a.jobs))
+    sys.exit(runner.run_check(chk, a.tier, seed=a.seed, budget_s=a.budget, jobs=a.jobs, cases=a.cases))
 
 
 if __name__ == '__main__':
